@@ -10,6 +10,7 @@
    both picture coding modes, every candidate list of base video formats. *)
 From Coq Require Import ZArith List Bool.
 From VC2 Require Import Model.SeqHeader Proofs.SeqHeaderProofs.
+From VC2 Require Import Model.SeqHeaderAccept Proofs.SeqHeaderAcceptProofs Model.LevelChoices.  (* addition: acceptance, below *)
 Import ListNotations.
 Open Scope Z_scope.
 
@@ -70,4 +71,139 @@ Example C15_example :
              (iter_sequence_headers ex_T [ex_any] ex_cf [1; 2]) = true
   (* a column forbidding the preset and the explicit frame rate leaves nothing *)
   /\ iter_sequence_headers ex_T [fun k v => negb (ckey_beq k K_custom_frame_rate_flag && (v =? 1))] ex_cf [1; 2] = [].
+Proof. vm_compute. repeat split; reflexivity. Qed.
+
+(* ==== ADDITION: "is accepted by the validator" ===================================================
+   Model/SeqHeaderAccept.v models decoder/sequence_header.py as the ordered list of checks the
+   validator makes on one sequence header (level checks via assert_level_constraint AND everything
+   else: enum membership, zero sizes / rates / ratios, clean area, excursions, version
+   implications, picture dimensions); `header_accepts` runs the non-level ones, `header_check
+   (level_ok tbl)` all of them.  tools/harness/C15.py compares the verdict (class of the first
+   failing check) with the real validator on valid, invalid and mutated headers.
+
+   `format_valid` / `config_valid` are predicates on the CONFIGURATION only; `enums_cover` (every
+   key of a data table is a member of its vc2_data_tables enumeration) is checked on the live
+   tables on every run.  `header_required_version h` is the largest bound of the validator's
+   `...NotSupportedByVersion` tests on h (C15_autofilled_version_suffices: the version the
+   autofill of C16's model writes is at least that). *)
+
+(* every header of the enumeration passes every NON-level check of the validator.
+   partial: (a) the level checks are the next theorem; (b) stream-level requirements on sequence
+   headers (byte-identical repeats, the level's data-unit pattern, major_version minimal for the
+   whole sequence: C22) are outside this statement. *)
+Theorem C15_headers_accepted_partial : forall (T : tables) (E : enums) (tbl : ctable) (cf : features)
+    (cands : list Z) (h : header) (major : Z),
+  tables_wf T -> enums_cover T E = true -> config_valid E cf = true ->
+  In h (iter_sequence_headers T tbl cf cands) ->
+  header_required_version h <= major ->
+  header_accepts T E major 0 h = Accept.
+Proof. exact headers_accepted. Qed.
+
+(* ... and every level check too (one column admits all of them: C15_options_respect_column),
+   PROVIDED the columns admitting the configuration admit the version numbers written -- the encoder
+   never looks at them (known finding encoder-ignores-level-major_version).
+   partial: `level_ok tbl` is the incremental check on abstract columns ("some column admits
+   everything recorded so far and the new value"); that the real assert_level_constraint /
+   allowed_values_for on ValueSet tables computes exactly this is Props/C17.v C17_level_step_iff
+   (C17_incremental_iff for the whole sequence of distinct keys), tied to the code by C17's and this
+   check's correspondence runs. *)
+Theorem C15_headers_accepted_under_level_partial : forall (T : tables) (E : enums) (tbl : ctable)
+    (cf : features) (cands : list Z) (h : header) (major : Z),
+  tables_wf T -> enums_cover T E = true -> config_valid E cf = true ->
+  In h (iter_sequence_headers T tbl cf cands) ->
+  header_required_version h <= major ->
+  (forall c : column, In c tbl ->
+     Forall (fun p => c (fst p) (snd p) = true) (trivial_level_constraints cf) ->
+     c K_major_version major = true /\ c K_minor_version 0 = true) ->
+  header_check T E (level_ok tbl) major 0 h = Accept.
+Proof. exact headers_accepted_under_level. Qed.
+
+(* the pairs checked against the level are exactly coded_keys (C15_options_respect_column) with
+   the two version numbers inserted where parse_parameters checks them *)
+Theorem C15_level_checked_pairs : forall T E tbl cf cands h major,
+  tables_wf T -> enums_cover T E = true -> config_valid E cf = true ->
+  In h (iter_sequence_headers T tbl cf cands) ->
+  header_required_version h <= major ->
+  level_kvs (header_checks T E major 0 h) = coded_keys_v major 0 h.
+Proof. exact header_level_pairs. Qed.
+
+(* the major_version C16's model of the autofill writes for a header (Model/LevelChoices.v
+   header_version, the header's part of autofill_major_version) satisfies the version hypothesis *)
+Theorem C15_autofilled_version_suffices : forall h : header,
+  header_required_version h <= header_version h.
+Proof. exact header_required_le_autofill. Qed.
+
+(* format_valid is NECESSARY, not only sufficient: the encoding that codes every group explicitly
+   (the last one the enumeration yields when the level leaves everything open, see the example) is
+   accepted -- under any level -- only if the format is valid.  So it is the weakest condition on the
+   configuration under which ALL encodings are accepted.  (The frame-size parity conditions of
+   the generators of tools/harness/C15.py are stronger: a 3x3 4:4:4 frame coded as fields passes
+   dims_ok, and the real validator accepts it.) *)
+Theorem C15_format_valid_necessary : forall (T : tables) (E : enums) (lvl : level_oracle)
+    (major minor prof level bvf : Z) (v : vparams) (pcm : Z),
+  set_source_defaults T bvf <> None ->
+  header_check T E lvl major minor (mkHeader prof level bvf (explicit_src v) pcm) = Accept ->
+  format_valid E v pcm = true.
+Proof. exact explicit_header_needs_format_valid. Qed.
+
+(* ... and that encoding IS the last one the enumeration yields for a base video format when the
+   table has a column leaving everything open (any_col, e.g. level 0 = unconstrained), for EVERY
+   tables value and target: so, there, "all enumerated headers pass the non-level checks" implies
+   format_valid -- the converse of C15_headers_accepted_partial. *)
+Theorem C15_explicit_encoding_enumerated : forall (T : tables) (tbl : ctable) (cf : features) (cands : list Z)
+    (bvf : Z) (base : vparams) (p0 m0 t0 : Z),
+  In bvf (rank_base_video_format_similarity T (cf_video cf) cands) ->
+  set_source_defaults T bvf = Some base ->
+  assoc 0 (preset_color_specs T) = Some [p0; m0; t0] ->
+  In any_col tbl ->
+  In (mkHeader (cf_profile cf) (cf_level cf) bvf (explicit_src (cf_video cf)) (cf_pcm cf))
+     (iter_sequence_headers T tbl cf cands).
+Proof. exact explicit_header_enumerated. Qed.
+
+Theorem C15_all_accepted_implies_format_valid : forall (T : tables) (E : enums) (tbl : ctable) (cf : features)
+    (cands : list Z) (bvf : Z) (base : vparams) (p0 m0 t0 major minor : Z),
+  In bvf (rank_base_video_format_similarity T (cf_video cf) cands) ->
+  set_source_defaults T bvf = Some base ->
+  assoc 0 (preset_color_specs T) = Some [p0; m0; t0] ->
+  In any_col tbl ->
+  (forall h, In h (iter_sequence_headers T tbl cf cands) -> header_accepts T E major minor h = Accept) ->
+  format_valid E (cf_video cf) (cf_pcm cf) = true.
+Proof. exact all_accepted_needs_format_valid. Qed.
+
+(* whatever the level oracle says, an accepted header passed every non-level check *)
+Theorem C15_accept_implies_nonlevel_accept : forall T E lvl major minor h,
+  header_check T E lvl major minor h = Accept -> header_accepts T E major minor h = Accept.
+Proof. exact accept_implies_nonlevel_accept. Qed.
+
+(* ---- non-vacuity of the acceptance theorems: the instance above with its enumerations ---- *)
+Definition ex_E : enums := mkEnums [0; 3] [0] [1; 2] [0; 1] [0; 1; 2] [0; 1] [1; 2] [1] [1] [0; 1] [0; 1] [0; 1] [0].
+(* 481 lines coded as fields with 4:2:0, frame rate 25/0 *)
+Definition ex_bad : features := mkFeatures 0 3 1 [] (mkVP (640, 481) 2 0 0 (25, 0) (1, 1) (640, 480, 0, 0) (0, 255, 128, 255) 1 1 0).
+Definition ex_odd : features := mkFeatures 0 3 1 [] (mkVP (640, 481) 2 0 0 (25, 1) (1, 1) (640, 480, 0, 0) (0, 255, 128, 255) 1 1 0).
+
+Example C15_accept_example :
+  enums_cover ex_T ex_E = true /\ config_valid ex_E ex_cf = true
+  (* all four headers need version 2 (high quality profile) and are accepted with it, level checks included *)
+  /\ map (fun h => (header_required_version h, header_check ex_T ex_E (level_ok [ex_any]) 2 0 h))
+         (iter_sequence_headers ex_T [ex_any] ex_cf [1; 2])
+     = [(2, Accept); (2, Accept); (2, Accept); (2, Accept)]
+  (* the last one is the all-explicit encoding of C15_format_valid_necessary *)
+  /\ last (iter_sequence_headers ex_T [ex_any] ex_cf [1; 2]) (mkHeader 0 0 0 (explicit_src (cf_video ex_cf)) 0)
+     = mkHeader 3 0 1 (explicit_src (cf_video ex_cf)) 0
+  (* version 1: the profile's bound fails first *)
+  /\ map (header_accepts ex_T ex_E 1 0) (iter_sequence_headers ex_T [ex_any] ex_cf [1; 2])
+     = [Reject E_ProfileNotSupportedByVersion; Reject E_ProfileNotSupportedByVersion;
+        Reject E_ProfileNotSupportedByVersion; Reject E_ProfileNotSupportedByVersion]
+  (* a level forbidding major_version 2 *)
+  /\ header_check ex_T ex_E (level_ok [fun k v => negb (ckey_beq k K_major_version && (v =? 2))]) 2 0
+       (mkHeader 3 0 1 (explicit_src (cf_video ex_cf)) 0) = RejectLevel K_major_version
+  (* invalid targets: the encoder still enumerates headers; each is rejected by its first failing check *)
+  /\ config_valid ex_E ex_bad = false
+  /\ map (header_accepts ex_T ex_E 2 0) (iter_sequence_headers ex_T [ex_any] ex_bad [1; 2])
+     = [Reject E_FrameRateHasZeroDenominator; Reject E_FrameRateHasZeroDenominator;
+        Reject E_FrameRateHasZeroDenominator; Reject E_FrameRateHasZeroDenominator]
+  /\ config_valid ex_E ex_odd = false
+  /\ map (header_accepts ex_T ex_E 2 0) (iter_sequence_headers ex_T [ex_any] ex_odd [1; 2])
+     = [Reject E_PictureDimensionsNotMultipleOfFrameDimensions; Reject E_PictureDimensionsNotMultipleOfFrameDimensions;
+        Reject E_PictureDimensionsNotMultipleOfFrameDimensions; Reject E_PictureDimensionsNotMultipleOfFrameDimensions].
 Proof. vm_compute. repeat split; reflexivity. Qed.
